@@ -288,15 +288,17 @@ def match_known(prop, sig, known):
     return None
 
 
-def unreproduced(v, rej, rej2, what="rejections"):
+def unreproduced(v, rej, rej2, what="rejections", total=None):
     """Confirmation rule shared by the checks: a rejected case that is not rejected again when it is re-run on the
-    real code never becomes a verdict.  If NONE of the rejections reproduced there is no verdict at all (exit 2); if
-    some did, those decide and the lost ones are only noted in the evidence file."""
+    real code never becomes a verdict - it is dropped and counted in the evidence file (notes).  Only reproduced
+    rejections become violations.  Many unreproducible rejections mean the harness itself is unstable: exit 2."""
     lost = set(rej) - set(rej2)
-    if lost and not (set(rej) & set(rej2)):
-        raise Broken("%s not reproduced on re-run: %s" % (what, sorted(lost)[:10]))
     if lost:
-        v.notes.append("%d %s did not reproduce on re-run and were dropped (no verdict from them); %d reproduced" % (len(lost), what, len(set(rej) & set(rej2))))
+        limit = max(3, (total or 0) // 1000)
+        if len(lost) > limit:
+            raise Broken("%d %s did not reproduce on re-run (more than %d: unstable harness, no verdict): %s" % (len(lost), what, limit, sorted(lost)[:10]))
+        v.notes.append("%d %s did not reproduce on re-run and were dropped (no verdict from them): ids %s; %d reproduced" % (
+            len(lost), what, sorted(lost)[:10], len(set(rej) & set(rej2))))
     return lost
 
 
